@@ -23,6 +23,7 @@ type Event struct {
 	Pos       token.Pos
 	Construct string
 	Quant     bool // condition or context contains quantifiers
+	RetVals   []Val
 }
 
 type State struct {
@@ -111,6 +112,9 @@ type VC struct {
 	closure  map[ssa.Value]*ssa.MakeClosure
 	nonnil   map[ssa.Value]bool
 	quantCtx bool
+	usedCallees map[*FuncInfo]bool
+	lastEv      *Event
+	havocked    map[string][]string // heap name -> havoc versions in creation order
 }
 
 type recvAxiom struct{}
@@ -121,7 +125,7 @@ func newVC(P *Program, fi *FuncInfo, fn *ssa.Function) *VC {
 		edge: map[[2]int]Term{}, strConst: map[string]Term{}, loops: map[*ssa.BasicBlock]*LoopInfo{},
 		loopOf: map[*ssa.BasicBlock]*LoopInfo{}, assumed: map[string]bool{}, params: map[string]Val{},
 		counts: map[string]int{}, implPred: map[string]*types.Interface{}, ufs: map[string]string{},
-		closure: map[ssa.Value]*ssa.MakeClosure{}, nonnil: map[ssa.Value]bool{}}
+		closure: map[ssa.Value]*ssa.MakeClosure{}, nonnil: map[ssa.Value]bool{}, usedCallees: map[*FuncInfo]bool{}}
 }
 
 // maxLen: no Go object is larger than the 48-bit address space (runtime maxAlloc on linux/amd64);
@@ -201,7 +205,8 @@ func (vc *VC) oblige(class, detail string, guard, cond Term, pos token.Pos, cons
 	if !pos.IsValid() {
 		pos = vc.curPos
 	}
-	vc.events = append(vc.events, &Event{Oblig: true, Name: name, Class: class, Guard: guard, Cond: cond, Pos: pos, Construct: construct, Quant: vc.quantCtx})
+	vc.lastEv = &Event{Oblig: true, Name: name, Class: class, Guard: guard, Cond: cond, Pos: pos, Construct: construct, Quant: vc.quantCtx}
+	vc.events = append(vc.events, vc.lastEv)
 	// after the check, execution continues only if it held
 	vc.events = append(vc.events, &Event{Guard: guard, Cond: cond})
 }
@@ -260,6 +265,10 @@ func (vc *VC) havocHeap(s *State, name string) {
 		return
 	}
 	s.heaps[name] = vc.freshConst(name, sort)
+	if vc.havocked == nil {
+		vc.havocked = map[string][]string{}
+	}
+	vc.havocked[name] = append(vc.havocked[name], s.heaps[name])
 }
 
 // ---------------------------------------------------------------------------
